@@ -555,7 +555,52 @@ class MergeSpec(SliceSpec):
         return 1 if out else 0
 
 
+class ScriptSpec(SliceSpec):
+    """C14 on the build-std IR including the regex crates"""
+    assumptions = ['a task fixes a program (ADD/BIND/PUT over literal ids and $variables within the limits) and ONE rendering of it (white space, comments, nu-prefixes, hex case and separators, trailing semicolon: seeded generator); the deciding step is over the symbolic bytes inside the rendering: every label character, every decimal digit of an alpha label, every hex digit (within its range), up to two white-space characters, comment characters',
+                   'the graph starts empty (capacity 5, N=2); ids are concrete',
+                   'the four regex::Regex objects are compiled and run by the real regex crates inside the executor (regex-syntax, regex-automata, aho-corasick, memchr); CPU feature detection reports no optional feature; nuw/nsw/exact flag violations are treated as poison (not reported) in these runs',
+                   'single fault: one ASCII byte of a concrete rendering ranges over all other ASCII values; the classification of a witness text as malformed is made by a reference grammar (seir/pscript.py ref_parse) on one model per path; Err-ness and the equality of the post-state with the commands before the fault are solver verdicts over the whole path',
+                   'built with the nightly toolchain and -Zbuild-std; fixed hash keys']
+    bounds = 'quick: 24 programs of 2..6 commands x one rendering each (up to about 40 symbolic bytes per text), 40 single-fault positions over 12 programs; thorough: 150 / 300'
+
+    def __init__(s):
+        GraphSpec.__init__(s, [], "Script::from_str(text).deploy_to(g) executed on the IR together with the regex crates; the same pre-state receives the corresponding add/bind/put/next_id calls built from the same solver variables; abstract post-states equal for all values of the symbolic bytes, count == number of commands; single-fault texts: no panic, Err for malformed witnesses, prefix applied")
+        s.which = 'C14'
+
+    @property
+    def judge(s):
+        from . import pscript
+        return pscript.judge_script
+
+    def tasks(s, tier):
+        from . import pscript as PS
+        return PS.tasks(tier)
+
+    def run(s, prop, tier, seed, args, t0):
+        from . import ptext as PT
+        os.environ.setdefault('SEIR_TASK_TIMEOUT', '600' if tier == 'quick' else '1800')
+        b = H.build_drv('dev-like')
+        tb = PT.build_bs(extra='script')
+        tasks = s.tasks(tier)
+        if args.only:
+            tasks = [t for t in tasks if args.only in t.name]
+        results = H.run_tasks(tb['ll'], tasks, jobs=args.jobs, seed=seed)
+        b2 = dict(b, ll=tb['ll'], seconds=b['seconds'] + tb['seconds'], profile=tb['profile'])
+        return finish(prop, tier, seed, t0, b2, results, s)
+
+    def replay(s, path):
+        from . import pscript as PS
+        v = json.load(open(path))
+        b = H.build_drv('dev-like')
+        lines, crashed, stderr = H.native_replay(b['replay'], v['job'])
+        out, info = PS.judge_script(v['job'], lines, crashed, stderr)
+        print(json.dumps({'reproduces': bool(out), 'what': out}, indent=1))
+        return 1 if out else 0
+
+
 PROPS = {
+    'C14': ScriptSpec(),
     'C13': SliceSpec(),
     'C11': MergeSpec('C11'),
     'C12': MergeSpec('C12'),
